@@ -1,9 +1,25 @@
-"""Generated program corpora shared by C01 / C07 / C12 / C20 (programs enumerated by Scopes.tla, rendered by the harness)."""
+"""Generated / adversarial program corpora shared by C01 / C05 / C07 / C12 / C20.
+
+Part 1 (this file): the hand-written adversarial corpus /verif/corpus/adv (legal but unusual Go: parenthesised receivers
+and types, blank identifiers, empty constructs, bare returns, function-valued fields, multi-value forwarding, generics,
+comment and directive shapes, size/architecture dependent shapes, import tables), copied into the scratch directory.
+Part 2: programs enumerated by Scopes.tla and rendered by the harness (`vh scopes`), see props/scopes_common.py.
+"""
+import os
+import shutil
+import subprocess
+
+import vlib
 
 
 def generate(ctx, purpose):
-    """Returns a directory with generated packages, or None while the generator is not available."""
-    return None
+    d = os.path.join(ctx.scratch, "corpus_adv")
+    if not os.path.exists(d):
+        shutil.copytree(os.path.join(vlib.VERIF, "corpus", "adv"), d)
+        r = subprocess.run(["go", "build", "./..."], cwd=d, env=vlib.goenv(), capture_output=True, text=True)
+        if r.returncode != 0:
+            raise vlib.Infra("the adversarial corpus does not compile (it must be legal Go): " + r.stderr[-1500:])
+    return d
 
 
 def stats(ctx):
